@@ -2,8 +2,8 @@
    Conn/Checks.v) accepts EVERY trace of the connection handler's model: for every
    configuration, every behaviour of the modelled third-party code (RSA, serde), every
    adapter result and latency, every inbox of client frames and every timing. *)
-From Passage Require Import Lib.Bytes Codec.Desc Gen.PacketsGen Conn.Types Conn.Prog Conn.Sem1
-  Conn.Monitor Conn.MonitorProofs Conn.Order Conn.OrderProofs Conn.Checks Conn.Walk_C03 Adapters.Locale Adapters.LocaleProofs.
+From Passage Require Import Lib.Bytes Codec.Desc Gen.PacketsGen Conn.Types Conn.Prog Conn.Sem1 Conn.Sem2
+  Conn.Monitor Conn.MonitorProofs Conn.Monitor2Proofs Conn.Order Conn.OrderProofs Conn.Checks Conn.Walk_C03 Adapters.Locale Adapters.LocaleProofs.
 
 Theorem C03_walk : forall o cfg, safe (step_with chk_c03) m_init (listen o cfg).
 Proof. exact listen_c03_safe. Qed.
@@ -33,8 +33,26 @@ Theorem C03_locale_first_table : forall tables cands t,
                      /\ forall x, In x pre -> lookup_tbl x tables = None.
 Proof. exact first_table_spec. Qed.
 
+(* ---- the same at byte level (M2): for every timed byte stream the client can send, however
+   it is segmented and wherever keep-alive ticks and adapter completions fall - including the
+   schedules on which the handler drops a partly read frame (known classes K1 / K4 of C08). *)
+Lemma c03_accepts2 : forall o cfg e segs, ok (step_with chk_c03) m_init (untime (run2 o cfg e segs)).
+Proof. intros. unfold run2. apply safe_sound2. apply listen_c03_safe. Qed.
+
+Theorem C03_accepts_bytes : forall o cfg e segs,
+  accepts (step_with chk_c03) m_init (untime (run2 o cfg e segs)) = true.
+Proof. intros. apply ok_accepts. apply c03_accepts2. Qed.
+
+Theorem C03_every_event_checked_bytes : forall o cfg e segs pre ev post,
+  untime (run2 o cfg e segs) = pre ++ ev :: post ->
+  exists st, run (step_with chk_c03) m_init pre = Some st /\
+    (internal_at (q st) ev = true \/ exists q', delta (q st) ev = Some q' /\ chk_c03 st ev = true).
+Proof. intros o cfg e segs pre ev post H. eapply accepted_event_checked; [apply c03_accepts2 | exact H]. Qed.
+
 Print Assumptions C03_walk.
 Print Assumptions C03_locale_candidates.
 Print Assumptions C03_locale_first_table.
 Print Assumptions C03_accepts.
 Print Assumptions C03_every_event_checked.
+Print Assumptions C03_accepts_bytes.
+Print Assumptions C03_every_event_checked_bytes.
